@@ -509,7 +509,7 @@ def validate_trace(workdir, trace, timeout=3600, cfg="LruMemTrace.cfg", module="
                 bad.append(json.loads(body))
             except Exception:
                 bad.append({"line": -1, "op": "?", "bad": [["?", body[:200]]]})
-        elif line.startswith('<<"TRACE-DONE"'):
+        elif line.startswith('<<"TRACE-DONE"') and done is None:
             parts = line.strip("<>").split(",")
             done = (int(parts[1]), int(parts[2]))
     ok = "Model checking completed. No error has been found." in p.stdout
